@@ -14,7 +14,9 @@ EXHAUSTIVE = True
 TECHNIQUE = "runtime differential oracle: real asyncio.StreamReader + SOMEIPReader under enumerated/random chunkings vs datagram decoder and reference framing"
 LEVEL_TEXT = ("All 2^(n-1) chunkings of 16..18-byte single-message streams and every single/double cut of streams up to 64 "
               "bytes are enumerated, in two feeding schedules (buffered before the read, reader already waiting with one "
-              "chunk per loop iteration); longer streams, truncations at every byte and corrupted headers are sampled")
+              "chunk per loop iteration) and, for the single cuts and a third of the sampled streams, a third one in which a second "
+              "connection is read by another reader in the same loop, fed alternately, with a datagram decoded between chunks; "
+              "longer streams, truncations at every byte and corrupted headers are sampled")
 LEVEL_NOTE = "trusts asyncio.StreamReader (stock CPython), pv/refwire.py framing rules; loop is the virtual-time loop (no sockets)"
 RULE = (
     "streams of 0..8 generated messages (payload 0..4096, boundary-biased); chunkings: all cut sets for 16/17/18-byte "
